@@ -543,6 +543,16 @@ impl Transports {
             .expect("set_used failed to retrieve TpHandle")
     }
 
+    #[cfg(feature = "ezk-verif")]
+    pub(crate) fn verif_managed_len(&self) -> usize {
+        self.transports.lock().len()
+    }
+
+    #[cfg(feature = "ezk-verif")]
+    pub(crate) fn verif_stun_pending(&self) -> usize {
+        self.stun.verif_pending()
+    }
+
     /// Remove the transport behind the key
     pub fn drop_transport(&self, tp_key: &TpKey) {
         log::trace!("drop transport {:?}", tp_key);
